@@ -8,6 +8,7 @@ CONSTANTS
   BRANCH = 2
   DEPTHS = {1000, 100000}
   BIGDEPTHS = {}
+  TWINMOD = 8
   VARIANT = "single_visited"
   ALG = FALSE
 INVARIANTS TypeOK ModelOK
